@@ -445,6 +445,33 @@ def id_storage(facts):
                 o.check(b, "resize#%d" % n, t["line"], fresh, "length change only when removed_ids.pop() returned None (fresh id)",
                         "the element vector is resized on the id-reuse path: resize_with(id + 1) TRUNCATES it when a freed id below the highest "
                         "live id is reused, dropping the weights of every node above it")
+        # .. or inside the closure of `removed_ids.pop().unwrap_or_else(|| { fresh id })`: that closure runs exactly when pop() returned None
+        for cb in facts.with_closures(b)[1:]:
+            for i, t in cb.calls():
+                nm = last_seg(callee_name(t["f"]))
+                if nm not in ("ensure_len", "resize", "resize_with", "truncate", "set_len") or not t["args"]:
+                    continue
+                ae = cb.expr(t["args"][0], 8)
+                hit = ("field", "elements") in leaves(ae)
+                # a captured place: upvar k of the closure = operand k of the closure aggregate in the parent
+                ups = {x[1] for s_ in walk_expr(ae) if isinstance(s_, tuple) and s_[0] == "place" and s_[1] == ("arg", 1)
+                       for x in s_[2] if isinstance(x, tuple) and x[0] == "f"}
+                for _, _, pst in b.stmts():
+                    prv = pst["rv"]
+                    if prv["k"] == "agg" and prv.get("ak") == "closure" and prv["name"] == cb.path:
+                        for k_ in ups:
+                            if k_ < len(prv["o"]) and ("field", "elements") in leaves(b.expr(prv["o"][k_], 8)):
+                                hit = True
+                if hit:
+                    n += 1
+                    fresh = False
+                    for i2, t2 in b.calls():
+                        if last_seg(t2["f"]["path"]) in ("unwrap_or_else", "or_else", "map_or_else", "ok_or_else") and len(t2["args"]) >= 2:
+                            ce = strip_casts(b.expr(t2["args"][1], 3))
+                            if isinstance(ce, tuple) and ce[0] == "agg" and ce[1] == cb.path and has_call(b.expr(t2["args"][0], 8), ("pop",)):
+                                fresh = True
+                    o.check(b, "resize#%d" % n, t["line"], fresh, "length change only in the `pop() returned None` closure (fresh id)",
+                            "the element vector is resized in a closure that is not the None-path of removed_ids.pop()")
         o.check(b, "resizes", b.line, n >= 1, "%d resize site(s)" % n, "no resize of `elements` found in IdStorage::add")
     for b in o.need_fn(facts, "matrix_graph::IdStorage::remove"):
         succ = b.cfg()[0]
@@ -528,26 +555,38 @@ def spfa_dequeue(facts):
 def slice_names(b, op, limit=60):
     """names of the user variables in the backward slice of an operand (through statements and call arguments)"""
     seen, out = set(), set()
-    work = [op_local(op)] if op_local(op) is not None else []
+
+    def item(o_):
+        """(local, first field index of the projection or None)"""
+        pl = op_place(o_)
+        if pl is None:
+            return None
+        fld = next((x["f"] for x in pl["p"] if isinstance(x, dict) and "f" in x and "n" not in x), None)
+        return (pl["l"], fld)
+    work = [item(op)] if item(op) is not None else []
     while work and len(seen) < limit:
-        l = work.pop()
-        if l is None or l in seen:
+        it = work.pop()
+        if it is None or it in seen:
             continue
-        seen.add(l)
+        seen.add(it)
+        l, fld = it
         if b.lname(l):
             out.add(b.lname(l))
         for d in b.defs().get(l, []):
             if d[0] in ("st", "pst"):
                 rv = b.blocks[d[1]]["st"][d[2]]["rv"]
-                for o_ in rv.get("o", []):
-                    if op_local(o_) is not None:
-                        work.append(op_local(o_))
+                ops = rv.get("o", [])
+                if rv["k"] == "agg" and rv.get("ak") == "tuple" and fld is not None and fld < len(ops):
+                    ops = [ops[fld]]            # (a, b).0 depends on a only
+                for o_ in ops:
+                    if item(o_) is not None:
+                        work.append(item(o_))
                 if "pl" in rv:
-                    work.append(rv["pl"]["l"])
+                    work.append((rv["pl"]["l"], None))
             elif d[0] == "call":
                 for a in b.blocks[d[1]]["term"]["args"]:
-                    if op_local(a) is not None:
-                        work.append(op_local(a))
+                    if item(a) is not None:
+                        work.append(item(a))
     return out
 
 
